@@ -23,7 +23,9 @@ def unprio(x):
 
 
 def pair(x):
-    return [unprio(x[0]), x[1]]
+    # anything that is not one of our string tasks is written down as what it is; the spec rejects it
+    t = x[1] if isinstance(x[1], str) else 'not-a-task:' + getattr(x[1], '__name__', type(x[1]).__name__)
+    return [unprio(x[0]), t]
 
 
 def call(q, e):
